@@ -344,6 +344,8 @@ impl Link {
         message: Protocol,
     ) -> Result<()> {
         tracing::trace!(target: TRACING_TARGET, ?src, ?dst, protocol = %message, "Send");
+        #[cfg(feature = "verif-hooks")]
+        crate::verif::record(crate::verif::Decision::Enqueue { src, dst });
 
         self.rand_partition_or_repair(global_config, rand);
         let result = self.enqueue(global_config, rand, src, dst, message);
@@ -469,6 +471,8 @@ impl Link {
     // its state until the matching explicit call.
     fn rand_partition_or_repair(&mut self, global_config: &config::Link, rand: &mut dyn RngCore) {
         let do_rand = self.rand_partition(global_config.message_loss(), rand);
+        #[cfg(feature = "verif-hooks")]
+        crate::verif::record(crate::verif::Decision::RandPartition(do_rand));
         match (self.state_a_b, self.state_b_a) {
             (State::Healthy, _) | (_, State::Healthy) if do_rand => {
                 let break_a_b = matches!(self.state_a_b, State::Healthy);
@@ -492,6 +496,8 @@ impl Link {
             (State::RandPartition, _) | (_, State::RandPartition)
                 if self.rand_repair(global_config.message_loss(), rand) =>
             {
+                #[cfg(feature = "verif-hooks")]
+                crate::verif::record(crate::verif::Decision::RandRepair(true));
                 if matches!(self.state_a_b, State::RandPartition) {
                     self.state_a_b = State::Healthy;
                 }
@@ -573,6 +579,12 @@ impl Link {
         let mult = config.latency_distribution.sample(rand);
         let range = (config.max_message_latency - config.min_message_latency).as_millis() as f64;
         let delay = config.min_message_latency + Duration::from_millis((range * mult) as _);
+
+        #[cfg(feature = "verif-hooks")]
+        crate::verif::record(crate::verif::Decision::Delay {
+            x_ms: (range * mult) as u64,
+            delay_ns: std::cmp::min(delay, config.max_message_latency).as_nanos(),
+        });
 
         std::cmp::min(delay, config.max_message_latency)
     }
